@@ -849,7 +849,7 @@ fn c03(ctx: &Ctx, col: &mut Collector, extra: &mut serde_json::Value) {
                 break;
             }
             let npat: u64 = if len <= 2 { 1 } else { 1u64 << (len - 2) };
-            let exhaustive_here = len <= ctx.q(8, 12);
+            let exhaustive_here = len <= ctx.q(8, 16);
             let tries = if exhaustive_here { npat } else { ctx.q(24, 400) };
             for t in 0..tries {
                 let inner = if exhaustive_here { t } else { r.next() & (npat - 1) };
@@ -873,7 +873,7 @@ fn c03(ctx: &Ctx, col: &mut Collector, extra: &mut serde_json::Value) {
     col.merge(c);
     let n_err = col.counters.get("error_patterns_decoded").copied().unwrap_or(0);
     col.count("extra_evaluations", n_err);
-    *extra = json!({"byte_table": "every byte value at every divided byte position of every format", "weight_le3": "exhaustive per base frame", "weight_4_5": if ctx.thorough() { "exhaustive on one base frame" } else { "640000 sampled" }, "bursts": "every offset x every length <= 24; all inner patterns up to length 8 (quick) / 12 (thorough), sampled beyond", "base_frames": bases.iter().map(|b| hex(b)).collect::<Vec<_>>()});
+    *extra = json!({"byte_table": "every byte value at every divided byte position of every format", "weight_le3": "exhaustive per base frame", "weight_4_5": if ctx.thorough() { "exhaustive on one base frame" } else { "640000 sampled" }, "bursts": "every offset x every length <= 24; all inner patterns up to length 8 (quick) / 16 (thorough), sampled beyond", "base_frames": bases.iter().map(|b| hex(b)).collect::<Vec<_>>()});
 }
 
 // ---- C04
